@@ -143,7 +143,7 @@ func (c *syncMap) deleteExpired(before time.Time) {
 	c.data.Range(func(key, value interface{}) bool {
 		cacheEntry := value.(*TraitEntry) //nolint // Panic on type assertion failure is fine here.
 		if e := atomic.LoadInt64(&cacheEntry.E); e != 0 && e < beforeTS {
-			c.data.Delete(key)
+			c.deleteEntry(key, cacheEntry) // Key may already hold a fresh entry.
 		}
 
 		return true
